@@ -39,6 +39,12 @@ def tc(v):
 
 def gen(tier, rng):
     out = []
+    # the accessors as such, before the framework's exhaustion check (see C14): what is left afterwards
+    for m in ("ber", "cer", "der"):
+        for c in [b"", b"\x00", b"\x7f", b"\x80", b"\xff", b"\x00\x00", b"\x00\x7f", b"\x00\x80", b"\xff\x7f", b"\xff\x80", b"\xff\xff",
+                  b"\x01\x02\x03", b"\x00\x80\x00", b"\xff\x7f\xff", b"\x00" * 9 + b"\x01", b"\x7f" * 20]:
+            out.append("prim %s %s integer rem takeall" % (m, hx(c)))
+            out.append("prim %s %s unsigned rem takeall" % (m, hx(c)))
     one = [bytes([a]) for a in range(256)]
     two = [bytes([a, b]) for a in range(256) for b in range(256) if minimal(bytes([a, b]))]
     for a in one:
